@@ -40,6 +40,51 @@ CLAIMS = {
   text='frame_parts format/slice/order and its no-raise short-buffer behaviour, the encoder envelope (size = len(payload), length = size + 8), and per frame kind the interval of payload sizes the encoder can emit against the sizes the decoder guards accept.',
   ref='DESIGN.md 5 C20', note=TRUST + 'One known finding (zero-length body refused by the decoder) is listed in known_findings.json.',
   technique='abstract interpretation + struct-format algebra + interval comparison of guards'),
+
+ 'C03': dict(
+  text='Type-dispatch order of the value encoder (no arm shadowed: bool before int), tag<->decoder agreement by Pair for every emitted tag including the Python type returned, the integer ladders as exact integer sets against the decoder formats (sign preserved on all of Z), container framing on both sides, decimal field layout. Structural part only: Decimal/float/calendar arithmetic is trusted library behaviour.',
+  ref='DESIGN.md 5 C03', note=TRUST + 'Depth-32 clause: C08 shows recursion well-founded; the interpreter stack limit is a run-time quantity.',
+  technique='abstract interpretation of dispatch chain and ladders + interval-set arithmetic + struct-format algebra'),
+ 'C05': dict(
+  text='Tag table (exactly the 19 documented tags with grammar width/signedness/result type), METHODS type table, who-may-call for validate() on the receive path, long-string fallback, reject-path classification of every explicit raise in the content decoders (nothing value-dependent is refused), the timestamp milliseconds rule. Decides that no well-formed form is refused or mis-sized for structural reasons; values assigned by library conversions are not decided.',
+  ref='DESIGN.md 5 C05', note=TRUST,
+  technique='abstract interpretation of each decoder vs transcribed grammar; call-log who-may-call; control-dependence classification of raise sites'),
+ 'C08': dict(
+  text='Variant argument for every data-dependent loop on the decode side (a cursor advancing >= 1 per continuing iteration and provably below len(buffer) on every continuing path) and size-change argument for every recursive decoder call (strict suffix); exponent bound for the decimal power. Decides termination and the premises of the quadratic bound for all inputs; it is not a measured bound.',
+  ref='DESIGN.md 5 C08', note=TRUST + 'Consumed counts of callees come from their residual return terms / inductive (fixpoint) summaries.',
+  technique='loop summarisation with havocked variables, min-progress intervals through dispatch tables, linear bound reasoning, size-change for recursion'),
+ 'C09': dict(
+  text='May-raise analysis of frame.unmarshal for the non-method arms and each of the 64 method classes: every primitive failure modelled (struct, UTF-8, dict/index, shifts, fromtimestamp ...), try/except interpreted with the exception hierarchy, recursive decoders by inductive summaries; the escape set must be {UnmarshalingException}.',
+  ref='DESIGN.md 5 C09', note=TRUST + 'Assumes bytes input, default decimal context, no warnings-as-errors filter; RecursionError/MemoryError outside the property.',
+  technique='interprocedural exception-flow (may-raise) analysis over the abstract interpreter'),
+ 'C10': dict(
+  text='Only the structural necessary conditions of the property are decided: Pair for every encoder/decoder pair, prefix = length of what follows, type guard in front of every emission, bit confinement, no unguarded narrowing of a value-derived operand, empty-table shortcut behind the type guard. Each failing condition has a concrete corrupting value. Behaviour of arbitrary foreign values is NOT decided.',
+  ref='DESIGN.md 5 C10', note=TRUST + 'Quantifier "any Python value whatsoever" is out of reach statically; see DESIGN 9.',
+  technique='abstract interpretation of primitive encoders (guards, operands, formats) + Pair'),
+ 'C11': dict(
+  text='Every return path of the integer ladder (normal and legacy) is turned into the exact set of integers that take it (interval-set arithmetic over the guard atoms) and compared with the first-fit partition computed from transcribed type ranges; each arm must fit its encoder; refusals are TypeError; who-emits-integer-tags and switch semantics by call-graph / effect rules. Decides the property for all integers.',
+  ref='DESIGN.md 5 C11', note=TRUST,
+  technique='interval-set analysis of comparison chains; who-may-call; effect analysis of the switch'),
+ 'C12': dict(
+  text='Sorted-iteration rule at every dict iteration site of the encode side; effect analysis of frame.marshal for all classes and every encode function (no store / deletion / mutating call on caller-owned objects); determinism classification of global reads and library calls.',
+  ref='DESIGN.md 5 C12', note=TRUST,
+  technique='effect / freshness analysis over the abstract interpreter + syntactic iteration-site rule'),
+ 'C13': dict(
+  text='Each validate() is translated from its residual raise conditions into a constraint logic and compared per attribute with the transcribed specification constraints; regex alphabets compared as code-point sets over all of Unicode through re._parser; constructor ordering (validate after all stores) and marshal re-validation by event order and path conditions. Complete for the constraint logic.',
+  ref='DESIGN.md 5 C13', note=TRUST + '"never on decode" is decided by C05.V.',
+  technique='abstract interpretation of validators + constraint normalisation + regex syntax-tree analysis'),
+ 'C15': dict(
+  text='No time-zone dependent operation is reachable: every call expression of the package is resolved through import aliases and classified; the receiver of .timestamp() is shown aware on all paths (typestate via the abstract interpreter); decoder result built with tz=utc. A positive control file must be flagged on every run.',
+  ref='DESIGN.md 5 C15', note=TRUST + 'Classification table of tz-dependent stdlib primitives is part of the trusted base.',
+  technique='API-discipline scan with resolved callees + datetime awareness typestate'),
+ 'C16': dict(
+  text='Effect property: inventory of every scope-level mutable object; no function of the package writes shared state (syntactic who-may-write + interpreter effects over all codec entry points); parameter defaults immutable; constructor-stored and decoded objects are created per call (escape/freshness); no caching constructs. Hence no ordering or interleaving can change a result.',
+  ref='DESIGN.md 5 C16', note=TRUST + 'Atomicity of a global load/store in CPython is assumed.',
+  technique='effect, freshness and escape analysis; who-may-write'),
+ 'C18': dict(
+  text='Body value passes through both directions as the same term / the payload view buffer[7:n-1]; len() is the byte length; branch conditions on the body path mention only header bytes, end octet and len (information flow); heartbeat literal and guard; protocol-header octets field by field.',
+  ref='DESIGN.md 5 C18', note=TRUST,
+  technique='abstract interpretation + information-flow (bounded view) rule'),
  'C14': dict(
   text='Exhaustive static comparison of every literal of the generated method catalogue '
        '(64 classes x attributes, INDEX_MAPPING, Basic.Properties, effective constructor '
